@@ -169,6 +169,22 @@ func runC06(c *harness.Ctx) {
 			refSide.start(c, hs.End)
 		})
 	}
+	if t.Draw("longstream", 25) == 24 {
+		// several hundred frames each way: the frame counter and the length-mask
+		// generator run past 255 (and, from the real side in iat-mode 2, far beyond)
+		long := func() []writePlan {
+			var p []writePlan
+			for i := 0; i < 60; i++ {
+				p = append(p, writePlan{Size: 8000})
+			}
+			return p
+		}
+		realSide.plan, refSide.plan = long(), long()
+		link.AB.Policy, link.BA.Policy = 0, 0
+		link.AB.MaxRead, link.BA.MaxRead = 0, 0
+		c.S.MaxSteps = 3000000
+		c.Feature("long-stream-480KB-each-way")
+	}
 	refSide.expectIn, realSide.expectIn = planTotal(realSide.plan), planTotal(refSide.plan)
 	c.Info["real_writes"], c.Info["ref_writes"] = realSide.plan, refSide.plan
 	stop := c.S.Run(func() bool { return realUp && refUp && realSide.complete() && refSide.complete() }, 10*time.Minute+2*time.Hour)
